@@ -1,13 +1,18 @@
 (* Properties/C11.v — wildcard sets are exactly the reachable public types.  Statements only; proofs in
-   Proofs/WildcardProofs.v.  Proved for all inputs: the two list operations through which every wildcard
-   list of AssignWeights is built (merge, add-if-absent) keep lists duplicate-free and compute exactly the
-   union; the wildcard node T:* contributes T.  The global statement — after weight assignment the list of
-   every node and edge is the set of T with T:* reachable — is not proved; it is checked on every run,
-   per explicit start order and on cyclic models too, by reachability on the built graph
-   (run/lib/graphspec.reach_wild), with known finding K-WG-cycles delimiting the models where the
-   unmodified algorithm is order-dependent. *)
+   Proofs/WildcardProofs.v and Proofs/DagWeights.v.  Proved for all inputs: (a) the two list operations through
+   which every wildcard list of AssignWeights is built (merge, add-if-absent) keep lists duplicate-free and
+   compute exactly the union; the wildcard node T:* contributes T; (b) THE GLOBAL STATEMENT FOR GRAPHS WITHOUT
+   CYCLES (6-8): whenever weight assignment succeeds, for every start order, the wildcard list of every node
+   it reached holds exactly the types T whose node T:* can be reached from it ([reaches_wild], an inductive
+   reachability relation on the unweighted graph), and every edge carries its target's set.  The hypothesis
+   is the decidable [dag_check]; the executable form of the set ([spec_wildcards]) is evaluated by the
+   extracted model on every generated model and compared with the implementation's lists.  NOT proved: the
+   same on graphs with tuple cycles (checked on every run by reachability on the built graph,
+   run/lib/graphspec.reach_wild, per explicit start order; known finding K-WG-cycles delimits the models
+   where the algorithm is order-dependent); that the lists stay duplicate-free through the whole traversal
+   (observed per run). *)
 From Verif Require Import Base.Str Base.Outcome Model.Ast Model.Printer Model.WGraph Model.WWeights
-  Proofs.WildcardProofs Proofs.WeightsProofs.
+  Spec.GraphWeights Proofs.WildcardProofs Proofs.WeightsProofs Proofs.GraphPrims Proofs.DagWeights Proofs.DagCheck Proofs.Witnesses.
 
 Theorem C11_merge_keeps_duplicate_free : forall into from, NoDup into -> NoDup from -> NoDup (merge_wild into from).
 Proof. exact merge_wild_NoDup. Qed.
@@ -23,3 +28,23 @@ Proof. exact wildcard_edge_label. Qed.
 
 Theorem C11_total : forall o m, is_panic (build_weighted o m) = false.
 Proof. exact build_weighted_no_panic. Qed.
+
+(* 6. graphs without cycles, any start order: a node's list is exactly the set of reachable public types *)
+Theorem C11_acyclic_graph_wildcards : forall g0 rank order g',
+  ranked_by g0 rank -> terminals_not_placeholders g0 -> unweighted g0 ->
+  assign_weights order g0 = Ok g' ->
+  forall x, In x order -> is_terminal (n_type (node_of g0 x)) = false ->
+    (forall T, In T (n_wild (node_of g' x)) <-> reaches_wild g0 x T) /\
+    (forall e, In e (edges_from g' x) -> forall T, In T (e_wild e) <-> In T (ews g0 rank (eshape e))).
+Proof. exact dag_wildcards. Qed.
+
+(* 7. from the model, hypothesis discharged by evaluation; the executable specification is the same set *)
+Theorem C11_acyclic_model_wildcards : forall m g o g',
+  wbuild m = Ok g -> dag_check g = true -> build_weighted o m = Ok g' ->
+  forall x, In x (order_used o g) -> is_terminal (n_type (node_of g x)) = false ->
+  forall T, (In T (n_wild (node_of g' x)) <-> reaches_wild g x T) /\ (In T (n_wild (node_of g' x)) <-> In T (spec_wildcards g x)).
+Proof. exact acyclic_model_wildcards. Qed.
+
+(* 8. non-vacuity: the example model (with a wildcard restriction two levels below doc#viewer) is in the domain *)
+Theorem C11_domain_inhabited : in_dag_domain m_good = true /\ is_ok (build_weighted None m_good) = true.
+Proof. exact m_good_in_domain. Qed.
